@@ -3,6 +3,7 @@ import ShellOp.Proofs.TransMetrics
 import ShellOp.Proofs.MetricsU
 import ShellOp.Proofs.MetricsSim
 import ShellOp.Proofs.MetricsSimU
+import ShellOp.Proofs.MetricsKey
 /-!
 # C16 — hook metrics: validated as a batch; grouped metrics replaced, not accumulated
 
@@ -730,6 +731,53 @@ so a series written with an explicit empty value is the series without that labe
 example : labelValues [1, 3, 4] [(1, 7), (4, 9)] = [7, 0, 9]
     ∧ labelValues [1, 3, 4] [(1, 7), (3, 0), (4, 9)] = labelValues [1, 3, 4] [(1, 7), (4, 9)] := by decide
 
+
+/-- **C16.k (series identity across label shapes)** For the label sets of two operations on one
+grouped metric (as `mergeLabels` hands them over) and ANY list of label names of the collector that
+covers both (whatever `UpdateLabels` has grown it to): the value vectors `LabelValues` computes —
+absent label = "" — are equal exactly when the label sets without their empty values are equal.
+So the model's key `gkey` identifies exactly the series the code's collection key identifies. -/
+theorem labelValues_eq_iff_gkey_eq (names : List Nat) (l l' : Labels)
+    (h : KeysSorted l) (h' : KeysSorted l')
+    (hc : ∀ x ∈ l, x.1 ∈ names) (hc' : ∀ x ∈ l', x.1 ∈ names) :
+    labelValues names l = labelValues names l' ↔ gkey l = gkey l' := by
+  have hout : ∀ (m : Labels), (∀ x ∈ m, x.1 ∈ names) → ∀ k, k ∉ names → m.lookup k = none := by
+    intro m hm k hk
+    rw [List.lookup_eq_none_iff]
+    intro x hx
+    simp only [bne_iff_ne, ne_eq]
+    intro e
+    exact hk (e ▸ hm x hx)
+  constructor
+  · intro hv
+    apply sorted_nonzero_ext _ _ (gkey_sorted l h) (gkey_sorted l' h') (gkey_nonzero l) (gkey_nonzero l')
+    intro k
+    rw [lookupD_gkey l h, lookupD_gkey l' h']
+    by_cases hk : k ∈ names
+    · have := List.map_inj_left.mp hv k hk
+      exact this
+    · simp [lookupD, hout l hc k hk, hout l' hc' k hk]
+  · intro hg
+    apply List.map_inj_left.mpr
+    intro k _
+    have := congrArg (fun m => lookupD m k) hg
+    simp only [lookupD_gkey l h, lookupD_gkey l' h'] at this
+    exact this
+
+/-- the label sets the code passes on are of that kind: `mergeLabels` yields strictly increasing
+label names (so the hypotheses of `labelValues_eq_iff_gkey_eq` are met by every operation). -/
+theorem merged_labels_sorted (opLabels common : Labels) : KeysSorted (mergeLabels opLabels common) :=
+  mergeLabels_sorted opLabels common
+
+/-- non-vacuity on the boundary: under the names `[a, b, hook]` the sets `{a=v, hook}` and
+`{b=v, hook}` (equal values under different names) have different value vectors and different keys;
+an explicit empty value changes neither. -/
+example : labelValues [2, 3, 1] [(1, 7), (2, 9)] ≠ labelValues [2, 3, 1] [(1, 7), (3, 9)]
+    ∧ gkey [(1, 7), (2, 9)] ≠ gkey [(1, 7), (3, 9)]
+    ∧ labelValues [2, 3, 1] [(1, 7), (2, 9), (3, 0)] = labelValues [2, 3, 1] [(1, 7), (2, 9)]
+    ∧ gkey [(1, 7), (2, 9), (3, 0)] = gkey [(1, 7), (2, 9)]
+    ∧ KeysSorted (mergeLabels [(3, 0), (2, 9)] [(1, 7)]) := by
+  refine ⟨by decide, by decide, by decide, by decide, merged_labels_sorted _ _⟩
 
 /-! ## Tie T4: the validation of the model is the code
 
